@@ -279,6 +279,12 @@ def py_swallow(res):
     for fn in ast.walk(tree):
         if not isinstance(fn, ast.FunctionDef):
             continue
+        # local aliases of bound methods:  _si = self.__setitem__
+        alias = {}
+        for a in ast.walk(fn):
+            if isinstance(a, ast.Assign) and len(a.targets) == 1 and isinstance(a.targets[0], ast.Name) \
+                    and isinstance(a.value, ast.Attribute):
+                alias[a.targets[0].id] = a.value.attr
         for tr in ast.walk(fn):
             if not isinstance(tr, ast.Try):
                 continue
@@ -287,24 +293,31 @@ def py_swallow(res):
                 if tname in PY_HARMLESS_EXC:
                     continue
                 n += 1
-                reraises = any(isinstance(x, ast.Raise) for b in h.body for x in ast.walk(b))
-                if reraises:
+                raises = [x for b in h.body for x in ast.walk(b) if isinstance(x, ast.Raise)]
+                # a bare `raise` (or re-raising the caught object / the same
+                # class) passes the exception on; raising another class
+                # replaces it
+                same = all(x.exc is None or (h.name and pyfront.unparse(x.exc) == h.name) or
+                           pyfront.unparse(x.exc).split("(")[0] == tname for x in raises)
+                if raises and same:
                     continue
+                answers = "raises %s instead" % pyfront.unparse(raises[0].exc).split("(")[0] if raises \
+                    else "returns an answer instead of re-raising"
                 for b in tr.body:
                     for c in ast.walk(b):
                         if not isinstance(c, ast.Call):
                             continue
                         name = c.func.attr if isinstance(c.func, ast.Attribute) else \
                             c.func.id if isinstance(c.func, ast.Name) else None
+                        name = alias.get(name, name)
                         if name in PY_COMPARING:
                             res.findings.add(dict(
                                 rule="PY-CMP-SWALLOW", function=fn.name, file=REL, line=c.lineno,
                                 construct="`except %s` of %s answers for %s" % (tname, fn.name, pyfront.unparse(c.func)),
                                 detail="%s compares keys; an exception raised by a "
                                        "comparison inside it is caught by `except %s` "
-                                       "at line %d, which returns an answer instead of "
-                                       "re-raising: the caller never sees the key's "
-                                       "exception" % (pyfront.unparse(c)[:60], tname, h.lineno),
+                                       "at line %d, which %s: the caller never sees "
+                                       "the key's exception" % (pyfront.unparse(c)[:60], tname, h.lineno, answers),
                                 path=[]))
     res.count("PY-CMP-SWALLOW", n)
     res.floor("python exception handlers examined", n, 8)
